@@ -104,7 +104,7 @@ def main():
             'replay_cmd_template': '.venv/bin/python -m vf.replay {path}',
             'engine': 'vf',
             'level_claimed': {'category': c['level'], 'text': c['text'], 'design_ref': c['design']},
-            'level_note': c['note'],
+            'level_note': c['note'] + ' Every counterexample is replayed natively before it is reported; conditions whose inputs range over a small finite domain are additionally enumerated natively (evidence key conditions_by_kind separates CrossHair conditions, SMT lemmas, native by-products and native enumerations); thorough tier re-checks every unsat lemma query with cvc5.',
             'technique': c['technique'],
         })
     m = {
